@@ -155,7 +155,30 @@ static std::string hdr_quote(const std::string &box) {
   std::string o = "\""; for (char c : box) { if (c == '"' || c == '\\' || c == '\r') o += '\\'; o += c; } return o + "\"";
 }
 
+// qmail-header(5), RESENT MESSAGES: a message that carries any Resent- field is a resent message, and its envelope recipients are the
+// addresses in Resent-To, Resent-Cc and Resent-Bcc - not the original To/Cc/Bcc. One field alone must be enough, Resent-Bcc too (which,
+// like Bcc, is then deleted from the header). Generator of its own for one in ten of the qmail-inject plans.
+static bool gen_c17_resent(Plan &p) {
+  Rng r(mix64(p.seed, 0x4e5e17));
+  p.world = "I"; p.knobs.set("oracles", oracle_list({"c17"})).set("split_p", r.pick(std::vector<double>{0.0, 0.5})).set("stick", 1.0);
+  p.knobs.set("env", Json::obj());
+  std::string hdr = "From: Sender Person <sender@x.example>\n"; std::vector<std::string> orig, resent; int n = 0;
+  auto box = [&](const char *pre) { return std::string(pre) + std::to_string(++n) + "@" + r.pick(std::vector<std::string>{"x.example", "y.example", "a.b.example"}); };
+  auto field = [&](const std::string &name, std::vector<std::string> &into) { int k = (int)r.range(1, 2); std::string l; for (int q = 0; q < k; q++) { std::string b = box(name[0] == 'R' || name[0] == 'r' ? "rs" : "or"); into.push_back(b); l += (q ? ", " : "") + (r.chance(0.3) ? "Name <" + b + ">" : b); } hdr += name + ": " + l + "\n"; };
+  field(r.pick(std::vector<std::string>{"To", "to"}), orig); if (r.chance(0.5)) field("Cc", orig); if (r.chance(0.3)) field("Bcc", orig);
+  int which = (int)r.below(8);   // bit 0 Resent-To, bit 1 Resent-Cc, bit 2 Resent-Bcc; 0 = not resent at all
+  std::vector<std::string> order = {"Resent-To", "Resent-Cc", "Resent-Bcc"}; if (r.chance(0.3)) std::swap(order[0], order[2]);
+  for (auto &f : order) { int bit = f == "Resent-To" ? 1 : f == "Resent-Cc" ? 2 : 4; if (which & bit) { std::string fl = f; if (r.chance(0.2)) for (auto &c : fl) c = (char)tolower((unsigned char)c); field(fl, resent); } }
+  if (which && r.chance(0.3)) hdr += "Resent-From: resender@x.example\n";
+  hdr += "Subject: s\n\nbody line\n";
+  p.knobs.set("stdin", hdr); Json args = Json::arr(); if (r.chance(0.4)) args.push("-h"); p.knobs.set("args", args);
+  Json ex = Json::obj(); Json wr = Json::arr(); for (auto &w : (which ? resent : orig)) wr.push(w); ex.set("rcpts", wr); p.knobs.set("expect", ex);
+  p.label = std::string("qmail-inject, ") + (which ? "resent message (fields " + std::to_string(which) + ")" : "not resent");
+  return true;
+}
+
 static bool gen_c17_inject(Rng &r, Plan &p) {
+  if (mix64(p.seed, 0x5e5e) % 10 == 0) return gen_c17_resent(p);
   p.world = "I"; p.knobs.set("oracles", oracle_list({"c17"})).set("split_p", r.pick(std::vector<double>{0.0, 0.5})).set("stick", 1.0);
   std::string dhost = "sim.example", ddom = "sim.example", pdom = "sim.example"; Json env = Json::obj();
   if (r.chance(0.4)) { dhost = r.pick(std::vector<std::string>{"dh.example", "shorthost"}); env.set("QMAILDEFAULTHOST", dhost); }
